@@ -7,6 +7,7 @@ CONSTANTS
   Dev = "none"
 VIEW view
 INVARIANT PlainPureInv
+INVARIANT PlainReturnsNewObjectInv
 INVARIANT SharersUntouchedInv
 INVARIANT ArraysUntouchedInv
 INVARIANT PlainIsInplaceOnCopyInv
